@@ -75,6 +75,8 @@ def run(chk):
     chk.guard('gdt', 'entry value and default constructors', lambda: entry_and_defaults(chk))
     chk.guard('layout', 'lgdt operand', lambda: dtp_layout(chk))
     chk.guard('asm-options', 'lgdt', lambda: asm_not_pure(chk, chk.I, 'asm-options', ['src/instructions/tables.rs'], 1))
+    from .common import writers_touched
+    chk.guard('who-may-modify', 'GDT state', lambda: chk.floor('functions that build or modify a GDT', writers_touched(chk, 'who-may-modify', {'structures::gdt::GlobalDescriptorTable'}, 'the table and its length'), 3))
     chk.floor('obligations', len(chk.obs), 146)
 
 
